@@ -131,21 +131,33 @@ def run(rep):
         rep.check(ok_map, 'C13.wiring', f'stage-map:{tq}', tw, 'the stage map consulted for the push constant is not the map computed by the stage walk', ok_detail='consults the walker\'s map')
         # fallback = union over all entry points of the stage table
         fb = arg2[1][-1][1] if arg2 is not None and arg2[0] == 'alt' else None
-        ok_fb = fb is not None and fb[0] == 'star' and fb[1][0] == 'f' and fb[1][2] == 'entry_points' and not fb[4] and not fb[5]
-        rows_ok = False
-        if ok_fb:
-            el = ('elem', fb[2], fb[1])
-            rows_ok = True
-            for v, want in (('Vertex', 'VERTEX'), ('Fragment', 'FRAGMENT'), ('Compute', 'COMPUTE')):
-                def leaf(t, v=v):
-                    return (V('naga::ShaderStage::' + v),) if t == ('f', el, 'stage') else None
-                try:
-                    r = Eval(leaf).ev(fb[3])
-                    rows_ok &= isinstance(r, V) and r.path.endswith('ShaderStages::' + want)
-                except (Diverge, Unbound):
-                    rows_ok = False
-        rep.check(ok_fb and rows_ok, 'C13.fallback', f'entry-stages:{tq}', tw,
-                  f'the fallback stage set is {E.show(fb, maxdepth=5) if fb else None}; expected the union of the stages of all entry points', ok_detail='all entry points, stage table Vertex/Fragment/Compute')
+        # evaluated on model entry-point lists: the fallback must be the union of naga stage -> wgpu stage over all entry points
+        import engine_skel as K
+        from conc import Flags
+        modT = None
+        eps_terms = []
+        if fb is not None:
+            E.walk(fb, lambda x: eps_terms.append(x) if x[0] == 'f' and x[2] == 'entry_points' else None)
+        rows_ok = bool(eps_terms)
+        detail = ''
+        for stages_list in ([], ['Vertex'], ['Vertex', 'Fragment'], ['Compute', 'Compute', 'Fragment'], ['Fragment', 'Vertex', 'Compute']):
+            eps = [V('naga::EntryPoint', name=f'e{i}', stage=V('naga::ShaderStage::' + s_), function=V('naga::Function', name=None, result=None, arguments=[])) for i, s_ in enumerate(stages_list)]
+
+            def leaf(t, eps=eps):
+                if eps_terms and t == eps_terms[0]:
+                    return (eps,)
+                return None
+            ev = K.SkelEval(ogp, None, {}, '', None, extra_leaf=leaf)
+            try:
+                got = ev.norm_flags(ev.ev(fb)) if fb is not None else None
+            except (Diverge, Unbound) as ex:
+                got = f'<{ex}>'
+            want = {s_.upper() for s_ in stages_list}
+            if not (isinstance(got, Flags) and set(got.bits) == want):
+                rows_ok = False
+                detail = f'entry stages {stages_list} -> {got}'
+        rep.check(rows_ok, 'C13.fallback', f'entry-stages:{tq}', tw,
+                  f'the fallback stage set is not the union of the stages of all entry points ({detail or E.show(fb, maxdepth=5)})', ok_detail='all entry points, stage table Vertex/Fragment/Compute (evaluated on model entry lists)')
     rep.analysed = {'function': q, 'template': rt[1], 'top_level': tops}
 
 
